@@ -106,6 +106,10 @@ def oracle(case):
     if case.get("runon"):
         rkw["accept_regexp_sub_recommendations"] = False
         out.cls("run-on-negatives")
+    if case.get("read_policy") is not None:
+        # no regexp fixes wanted: the NULL policy is another matter and still applies
+        rkw["read_policy"] = tuple(case["read_policy"])
+        out.cls("read_policy-empty")
     las = read_text(text, engine=case["engine"], null_policy=policy, mnemonic_case=case.get("mnemonic_case", "upper"), **rkw)
     out.cls("mc-" + case.get("mnemonic_case", "upper"))
     if declared != c:
@@ -198,6 +202,8 @@ def read_cases(draw):
         case["declared"] = draw(st.integers(0, c))
     if not wrap and draw(st.integers(0, 4)) == 0:
         case["dlm"] = "COMMA"
+    elif draw(st.integers(0, 6)) == 0:
+        case["read_policy"] = []
     elif not wrap and textcol is None and draw(st.integers(0, 4)) == 0:
         case["keep_engine"] = True
     elif not wrap and textcol is None and nullx < 0 and draw(st.integers(0, 3)) == 0:
@@ -254,6 +260,10 @@ def oracle_write(case):
         if j < len(las.curves):
             las.curves[j].data = np.array([float(x) for x in las.curves[j].data], dtype=object)
             out.cls("object-dtype-numeric-curve")
+    if case.get("dlm_in_object"):
+        # the object of a tab-/comma-delimited file; its NaN positions survive the cycle like any other's
+        las.version["DLM"].value = case["dlm_in_object"]
+        out.cls("dlm-in-object-" + case["dlm_in_object"])
     opts = dict(case["opts"])
     if "column_fmt" in opts:
         opts["column_fmt"] = {int(k): v for k, v in opts["column_fmt"].items()}
@@ -350,6 +360,8 @@ def write_cases(draw):
     case = dict(side="write", nullspec=nullspec, cols=cols, opts=opts)
     if draw(st.integers(0, 3)) == 0:
         case["textcol"] = [draw(st.sampled_from(["SAND", "LIME", "x1", "N/A"])) for _ in range(r)]
+    if draw(st.integers(0, 4)) == 0:
+        case["dlm_in_object"] = draw(st.sampled_from(["TAB", "COMMA"]))
     if c >= 2 and draw(st.integers(0, 3)) == 0:
         case["object_cols"] = sorted(set(draw(st.lists(st.integers(1, c - 1), min_size=1, max_size=2))))
     return case
